@@ -106,3 +106,12 @@ Theorem not_in_pathspecs_forgotten cps ini_files keep f attrs K U H :
 Proof.
   intros H0. unfold post_commit_file, hunks_seen. rewrite H0. apply unseen_file_forgotten.
 Qed.
+
+(* while INITIAL names a file the pre-commit checkpoint runs, whatever checkpoints (human ones
+   included) the working log already holds for that file *)
+Theorem precommit_runs_with_initial no_ai im ini touched other f :
+  In f ini -> precommit_skipped no_ai im ini touched other = false.
+Proof.
+  intros Hf. unfold precommit_skipped, has_initial_attributions.
+  destruct ini as [|g t]; [destruct Hf|]. cbn. now rewrite andb_false_r.
+Qed.
